@@ -27,6 +27,7 @@ from .common import (
     mentions_name,
     pruned_reach,
     raise_dominated_by,
+    single_def_resolver,
 )
 
 EXPLANATION = (
@@ -113,7 +114,7 @@ def rule_r1(prog, res) -> None:
                 avoid = lambda n: _node_has(prog, ex, n, is_term)  # noqa: E731
             else:
                 avoid = lambda n: _node_has(prog, ex, n, None, lambda c: is_sentinel_put(prog, ex, c))  # noqa: E731
-            reach = pruned_reach(xcfg, xcfg.entry, exc_env(ex, present), avoid=avoid)
+            reach = pruned_reach(xcfg, xcfg.entry, exc_env(ex, present), avoid=avoid, defs=single_def_resolver(ex.node))
             return not any(j.id in reach for j in jnodes)
 
         for fi, item in _with_users(prog, ci):
@@ -193,7 +194,7 @@ def rule_r2(prog, res) -> None:
 
                 def escapes(fn: FuncInfo, start, env) -> bool:
                     c = cfg_of(fn.node)
-                    reach = pruned_reach(c, start, env, avoid=lambda t, c=c: is_exit_test(c, t))
+                    reach = pruned_reach(c, start, env, avoid=lambda t, c=c: is_exit_test(c, t), defs=single_def_resolver(fn.node))
                     return c.exit.id in reach
 
                 ok = not escapes(m, n, {})
@@ -347,8 +348,8 @@ def rule_r4(prog, res) -> None:
             continue
         n += 1
         res.touch(ex)
-        bad = pruned_reach(cfg, cfg.entry, exc_env(ex, True))
-        good = pruned_reach(cfg, cfg.entry, exc_env(ex, False))
+        bad = pruned_reach(cfg, cfg.entry, exc_env(ex, True), defs=single_def_resolver(ex.node))
+        good = pruned_reach(cfg, cfg.entry, exc_env(ex, False), defs=single_def_resolver(ex.node))
         hit = [k for k in knodes if k.id in bad]
         if hit:
             res.violation(
